@@ -6,6 +6,7 @@ import Driver.Hash
 import Driver.Lock
 import Driver.HashTbl
 import Driver.ListTbl
+import Driver.Conf
 
 def main (args : List String) : IO UInt32 := do
   match args with
@@ -19,4 +20,5 @@ def main (args : List String) : IO UInt32 := do
   | ["lock"] => Driver.Lock.run; return 0
   | ["hashtbl"] => Driver.HashTbl.run; return 0
   | ["listtbl"] => Driver.ListTbl.run; return 0
+  | ["conf"] => Driver.Conf.run; return 0
   | _ => IO.eprintln "usage: qdriver <module>"; return 2
